@@ -54,6 +54,9 @@ type taskInfo struct {
 	// Largest number of consecutive requests in which a worker that was
 	// told to run this task did not claim to be running it.
 	maxRerequests int
+	// Number of Executing responses that handed THIS task to a given worker
+	// (worker name -> count), whatever the worker reported in between.
+	handouts map[string]int
 
 	// Learners: the first one seen attached; later ones follow through
 	// fakeLearner.grantedRetry.
@@ -250,7 +253,7 @@ func (m *monitors) taskID(t *scheduler.VerifTask) int {
 		id += 1000 // cannot happen with a correct scheduler; keep identities distinct anyway
 	}
 	m.taskOf[t.Ref] = id
-	m.tasks[id] = &taskInfo{id: id, ref: t.Ref, doNotCache: t.DoNotCache, digestHash: t.ActionDigest}
+	m.tasks[id] = &taskInfo{id: id, ref: t.Ref, doNotCache: t.DoNotCache, digestHash: t.ActionDigest, handouts: map[string]int{}}
 	return id
 }
 
@@ -347,6 +350,9 @@ func (m *monitors) absorb(snap *scheduler.VerifSnap) {
 			// still the time at which that section ran its clean-ups.
 			ti.completionTick = min(now, nsTick(snap.Now))
 			m.classifyCompletion(ti, t)
+			if isNoWaitersCancellation(ti.finalResp) {
+				m.checkCancelledWithLiveStream(ti, "was completed with "+respSummary(ti.finalResp))
+			}
 		}
 	}
 	// Tasks that disappeared without ever having been seen completed:
@@ -356,6 +362,10 @@ func (m *monitors) absorb(snap *scheduler.VerifSnap) {
 			if !present[id] && !ti.gone {
 				ti.gone = true
 				if !ti.completedSeen {
+					// The only way in which a task that has not completed
+					// leaves the scheduler: its last operation was removed
+					// as abandoned (which cancels it for lack of clients).
+					m.checkCancelledWithLiveStream(ti, "disappeared without a result, i.e. its last operation was removed as abandoned")
 					if l := ti.lastLearner(); l != nil && !(l.abandonedN == 1 && l.succeeded == 0 && l.failed == 0) {
 						m.fail("C07", "learner/mismatch/vanished", "task %d disappeared without a result (abandoned by its clients) but its learner %v received succeeded=%d failed=%d abandoned=%d; expected exactly one Abandoned", id, l, l.succeeded, l.failed, l.abandonedN)
 					}
@@ -595,7 +605,23 @@ func (m *monitors) checkStream(s *stream) {
 		m.fail("C02", "name-changed", "stream %s: operation name changed within one stream", s.id)
 	}
 	d := s.doneMsg()
-	if d == nil || s.task == 0 {
+	if d == nil {
+		return
+	}
+	// C03: "a client leaving does not disturb the others, and the task is
+	// cancelled only when its last operation is abandoned": a stream is a
+	// waiting client, so it can never be told that nobody is waiting. This
+	// is judged on the message alone: a task that is cancelled for lack of
+	// clients usually loses its last operation in the same critical section
+	// and is then never visible in a dump as COMPLETED.
+	if isNoWaitersCancellation(d.resp) {
+		msg := status.FromProto(d.resp.Status).Message()
+		m.fail("C03", "cancelled-with-waiter", "stream %s was told %q while it was waiting", s.id, msg)
+		if s.task != 0 && m.tasks[s.task].completedSeen {
+			m.fail("C02", "cancelled-with-waiter", "stream %s was told %q while it was waiting", s.id, msg)
+		}
+	}
+	if s.task == 0 {
 		return
 	}
 	ti := m.tasks[s.task]
@@ -615,12 +641,52 @@ func (m *monitors) checkStream(s *stream) {
 		}
 		m.fail("C02", fp, "stream %s: final response %s of task %d %s", s.id, respSummary(d.resp), s.task, ti.finalProblem)
 	}
-	// C03: "a client leaving does not disturb the others, and the task is
-	// cancelled only when its last operation is abandoned": a stream is a
-	// waiting client, so it can never be told that nobody is waiting.
-	if st := status.FromProto(d.resp.Status); st.Code() == codes.Canceled && strings.Contains(st.Message(), "no longer has any waiting clients") {
-		m.fail("C03", "cancelled-with-waiter", "stream %s was told %q while it was waiting", s.id, st.Message())
-		m.fail("C02", "cancelled-with-waiter", "stream %s was told %q while it was waiting", s.id, st.Message())
+}
+
+func isNoWaitersCancellation(r *remoteexecution.ExecuteResponse) bool {
+	st := status.FromProto(r.GetStatus())
+	return st.Code() == codes.Canceled && strings.Contains(st.Message(), "no longer has any waiting clients")
+}
+
+// liveStreamsOf lists the streams that are attached to one of the operations
+// of task id and whose client is still there: the stream has received a
+// message (so waitExecution has registered it as a waiter), has not been
+// completed, the harness has not cancelled its context and none of its
+// Sends failed (w.mu held). Only harness-owned facts are used, nothing of
+// the scheduler's own bookkeeping.
+func (m *monitors) liveStreamsOf(id int) []string {
+	var r []string
+	for _, a := range m.w.actors {
+		for _, s := range a.streams {
+			if s.name == "" || m.opTask[s.name] != id {
+				continue
+			}
+			if len(s.msgs) == 0 || s.sendFailed || s.ctx.cancelled() {
+				continue
+			}
+			// A stream that had been waiting (it received an earlier update)
+			// and has just been handed this very cancellation (the thread
+			// that ran the clean-up delivers it to itself in the same step)
+			// was attached when it happened.
+			if d := s.doneMsg(); d != nil && !(isNoWaitersCancellation(d.resp) && len(s.msgs) >= 2) || d == nil && s.returned {
+				continue
+			}
+			r = append(r, s.id+"("+opShort(s.name)+")")
+		}
+	}
+	return r
+}
+
+// checkCancelledWithLiveStream: C03 "a client leaving does not disturb the
+// others, and the task is cancelled only when its last operation is
+// abandoned". Evaluated at the first quiescent point at which the
+// cancellation (or the disappearance of the uncompleted task) is visible,
+// i.e. right after the critical section that did it: an operation some live
+// stream is attached to is not abandoned, whatever waiter counts and
+// clean-up timers say (w.mu held).
+func (m *monitors) checkCancelledWithLiveStream(ti *taskInfo, what string) {
+	if live := m.liveStreamsOf(ti.id); len(live) > 0 {
+		m.fail("C03", "cancelled-with-live-stream", "task %d %s although stream(s) %v are attached to its operation(s) and their clients never left (context not cancelled, no Send failure)", ti.id, what, live)
 	}
 }
 
@@ -927,7 +993,16 @@ func (m *monitors) onWorkerCallEnd(a *actor, resp *remoteworker.SynchronizeRespo
 			}
 		}
 		// C06: "a task a worker keeps re-requesting is failed with INTERNAL
-		// after the configured number of retries".
+		// after the configured number of retries": the same task reaches the
+		// same worker at most WorkerTaskRetryCount+1 times (once, plus the
+		// retries), no matter what the worker reports between its
+		// re-requests (progress, a wrong digest, nothing).
+		if ti != nil {
+			ti.handouts[a.name]++
+			if n := ti.handouts[a.name]; n > w.cfg.RetryCount+1 {
+				m.fail("C06", "retry-limit-not-enforced", "task %d was handed to worker %s %d times (WorkerTaskRetryCount=%d): the worker keeps re-requesting it, yet it was not failed with INTERNAL", id, a.name, n, w.cfg.RetryCount)
+			}
+		}
 		if wk.toldCount > w.cfg.RetryCount+1 {
 			m.fail("C06", "retry-limit-not-enforced", "worker %s was told %d times in a row to execute task %d (WorkerTaskRetryCount=%d)", a.name, wk.toldCount, id, w.cfg.RetryCount)
 		}
@@ -1359,6 +1434,43 @@ func (m *monitors) checkC06(snap *scheduler.VerifSnap) {
 			}
 		}
 	}
+	// "Every blocked call (Execute, WaitExecution, ...) returns once its
+	// wake-up condition or timeout occurs": the wake-up condition of a
+	// waiting stream is the completion of its task. At a quiescent point
+	// with the scheduler lock free everything that can run has run; a stream
+	// whose task is COMPLETED must therefore have been woken (it has then
+	// stopped its update timer and is on its way to the lock or gone). A
+	// client that still sleeps in waitExecution's select with its update
+	// timer armed has lost the wake-up; that the timer will rescue it one
+	// update interval later does not count (whichever comes first).
+	m.w.mu.Lock()
+	for _, a := range m.w.actors {
+		if a.kind != "client" || len(a.streams) == 0 || !a.deliverable() {
+			continue
+		}
+		s := a.streams[len(a.streams)-1]
+		if s.returned || s.name == "" || s.doneMsg() != nil {
+			continue
+		}
+		completed, known := "", false
+		for _, o := range snap.Operations {
+			if o.Name == s.name && o.Task >= 0 {
+				known = true
+				if r := snap.Tasks[o.Task].ExecuteResponse; r != nil {
+					completed = respSummary(r)
+				}
+			}
+		}
+		if !known {
+			if ti := m.tasks[m.opTask[s.name]]; ti != nil && ti.completedSeen {
+				completed = respSummary(ti.finalResp)
+			}
+		}
+		if completed != "" {
+			m.fail("C06", "lost-wakeup/completed-while-blocked", "stream %s sleeps in the select of waitExecution (update timer armed for tick %d, context not cancelled) although its task has COMPLETED (%s): the completion did not wake it up", s.id, a.timer.deadline, completed)
+		}
+	}
+	m.w.mu.Unlock()
 	for _, o := range snap.Operations {
 		if o.InNameMap && o.Waiters == 0 && !o.MayExistWithoutWaiters && !o.CleanupActive {
 			m.fail("C06", "operation-not-armed", "operation %s has no waiters but no removal is scheduled for it", opShort(o.Name))
@@ -1678,7 +1790,13 @@ func (m *monitors) buildKey(snap *scheduler.VerifSnap) string {
 		for _, sw := range ti.startWorkers {
 			b.s(sw).s(",")
 		}
-		b.s(" mr=").i(ti.maxRerequests).s(" aw=")
+		b.s(" mr=").i(ti.maxRerequests).s(" ho=")
+		for _, a := range w.actors {
+			if n := ti.handouts[a.name]; n > 0 {
+				b.s(a.name).s(":").i(n).s(",")
+			}
+		}
+		b.s(" aw=")
 		for _, sw := range ti.assignedWorkers {
 			b.s(sw).s(",")
 		}
